@@ -94,8 +94,27 @@ ORIGIN
 """
 
 
-def gb_text(name, seq, res="AmpR"):
+GB_MULTI = GB.replace("""     misc_feature    1..10
+                     /label="%(res)s"
+""", """     CDS             1..10
+                     /note="a feature without any label"
+     misc_feature    3..8
+                     /label="ori"
+                     /label="origin of replication"
+     misc_feature    1..10
+                     /label="selection marker"
+                     /label="%(res)s"
+                     /note="several labels, the cassette name not first"
+""")
+
+
+def gb_text(name, seq, res="AmpR", multi=False):
     lines = []
+    if multi:
+        for i in range(0, len(seq), 60):
+            chunk = seq[i:i + 60].lower()
+            lines.append("%9d %s" % (i + 1, " ".join(chunk[j:j + 10] for j in range(0, len(chunk), 10))))
+        return GB_MULTI % dict(name=name, n=len(seq), res=res, origin="\n".join(lines))
     for i in range(0, len(seq), 60):
         chunk = seq[i:i + 60].lower()
         lines.append("%9d %s" % (i + 1, " ".join(chunk[j:j + 10] for j in range(0, len(chunk), 10))))
@@ -222,6 +241,8 @@ def bounded(ctx):
                             "beta.gb": gb_text("beta", p2, "KanR"),
                             # a stem with dots of its own (versioned file names): the key is everything before the extension
                             "omega.v2.gb": gb_text("omega.v2", p1),
+                            # several features and several /label qualifiers per feature, the resistance cassette named last
+                            "theta.gb": gb_text("theta", p2, "CmR", multi=True),
                             "notes.txt": "hello", "gamma.genbank": gb_text("gamma", p3), "noext": gb_text("noext", p3),
                             "sub/zzz.gb": gb_text("zzz", p3), "sub/deep/yyy.gb": gb_text("yyy", p3)})
         # (file stems need not be the identifiers written inside the files: `renamed.gb` holds the record `inner_id`)
@@ -229,16 +250,16 @@ def bounded(ctx):
         dirs += [d1, d2]
         r1 = base.FilesystemRegistry(d1, Entry)
         r2 = base.FilesystemRegistry(d2, Entry)
-        evals += check_mapping(r1, "directory(alpha.gb, beta.gbk, notes.txt, gamma.genbank, noext, sub/zzz.gb)", viol, expect_keys={"alpha", "beta", "omega.v2"})
+        evals += check_mapping(r1, "directory(alpha.gb, beta.gbk, notes.txt, gamma.genbank, noext, sub/zzz.gb)", viol, expect_keys={"alpha", "beta", "omega.v2", "theta"})
         evals += check_mapping(r2, "directory(alpha.gb, delta.gb)", viol, expect_keys={"alpha", "delta"})
         distinct.update({("dir1", "alpha"), ("dir1", "beta"), ("dir2", "alpha"), ("dir2", "delta")})
         r3 = base.FilesystemRegistry(d1, Entry, extensions=("genbank", "gb"))
-        evals += check_mapping(r3, "directory(extensions=genbank,gb)", viol, expect_keys={"alpha", "beta", "gamma", "omega.v2"})
+        evals += check_mapping(r3, "directory(extensions=genbank,gb)", viol, expect_keys={"alpha", "beta", "gamma", "omega.v2", "theta"})
         for order, first in (((r1, r2), p1), ((r2, r1), p3)):
             comb = base.CombinedRegistry()
             for r in order:
                 comb << r
-            evals += check_mapping(comb, "combined directories", viol, expect_keys={"alpha", "beta", "delta", "omega.v2"})
+            evals += check_mapping(comb, "combined directories", viol, expect_keys={"alpha", "beta", "delta", "omega.v2", "theta"})
             got = str(comb["alpha"].entity.record.seq).upper()
             if got != first.upper():
                 viol.append(dict(name="first_wins", what="combined registry: for the shared id 'alpha' the item of the member added second was kept",
@@ -255,7 +276,7 @@ def bounded(ctx):
         inner << r1
         outer << inner
         outer << inner
-        evals += check_mapping(outer, "... inner << dir1; outer << inner (twice)", viol, expect_keys={"alpha", "beta", "delta", "omega.v2"})
+        evals += check_mapping(outer, "... inner << dir1; outer << inner (twice)", viol, expect_keys={"alpha", "beta", "delta", "omega.v2", "theta"})
         if "alpha" in outer and str(outer["alpha"].entity.record.seq).upper() != p3.upper():
             viol.append(dict(name="first_wins_regrown", what="re-adding a grown member replaced the entry that was there first",
                              case=dict(scenario="nested combined registries")))
